@@ -4,7 +4,8 @@ from vlib import *
 from props.workercommon import *
 from props.c01 import C01, worker_check
 
-BEH = {"ignore": 0, "elevate": 1, "critical": 2, "keepref": 3}
+BEH = {"ignore": 0, "elevate": 1, "critical": 2, "keepref": 3, "replace": 0}     # (a handler that replaces itself: as ignore, the
+# later errors go to the replacement -- exactly once each, whichever generation handles them)
 
 
 def wx_scen(r, i):
@@ -21,6 +22,8 @@ def wx_scen(r, i):
                 behs[str(nid)] = r.choice(["elevate", "critical"])
             elif c < 0.3:
                 behs[str(nid)] = "keepref"
+            elif c < 0.45:
+                behs[str(nid)] = "replace"
         nid += 1
         t += 0 if burst else r.choice([3, 10, 40, 90])
     case = {"id": i, "throttle_ms": th, "events": evs, "error_behaviours": behs, "handler": {}, "tail_ms": 250 + th,
@@ -29,6 +32,21 @@ def wx_scen(r, i):
         case["error_slow_ms"] = 2
         case["tail_ms"] = 600
     return case
+
+
+def corpus_wx():
+    """always run: the handler replaces itself and more errors follow; a slow handler elevates while the action worker is blocked
+    sending the next error of a burst (error queue of one)"""
+    out = []
+    evs = [{"id": k, "at_ms": 40 + 30 * k, "verdict": "err" if k in (1, 2, 4) else "pass", "prio": "normal"} for k in range(1, 6)]
+    out.append({"throttle_ms": 0, "events": evs, "error_behaviours": {"1": "replace", "2": "replace"}, "handler": {}, "tail_ms": 400, "errors_cap": 64})
+    out.append({"throttle_ms": 0, "events": evs, "error_behaviours": {"1": "replace", "4": "elevate"}, "handler": {}, "tail_ms": 400, "errors_cap": 64})
+    burst = [{"id": k, "at_ms": 40, "verdict": "err", "prio": "normal"} for k in range(1, 5)]
+    out.append({"throttle_ms": 0, "events": burst, "error_behaviours": {"1": "elevate"}, "handler": {}, "tail_ms": 1200, "errors_cap": 1, "error_slow_ms": 200})
+    out.append({"throttle_ms": 0, "events": burst, "error_behaviours": {"2": "critical"}, "handler": {}, "tail_ms": 1200, "errors_cap": 1, "error_slow_ms": 150})
+    for k, cs_ in enumerate(out):
+        cs_["id"] = 200000 + k
+    return out
 
 
 class C15(C01):
@@ -44,7 +62,7 @@ class C15(C01):
         if c.errors:
             return c
         r = rng(seed, "c15wx")
-        cases = [wx_scen(r, 100000 + i) for i in range(40 if tier == "quick" else 500)]
+        cases = corpus_wx() + [wx_scen(r, 100000 + i) for i in range(40 if tier == "quick" else 500)]
         try:
             obs = run_parallel("wx", cases, "wx_" + self.pid)
         except RuntimeError as e:
